@@ -475,6 +475,11 @@ def plan_rechunk(old_chunks, new_chunks, itemsize, threshold=None, block_size_li
         # 0-D / 1-D: no block-size planning, but still bound fan-in below.
         steps = [new_chunks]
         size_budget = None
+        if new_chunks:
+            # the degree pass below must respect the same budget as the N-d planner
+            size_budget = max(
+                [block_size_limit / itemsize, _largest_block_size(old_chunks), _largest_block_size(new_chunks)]
+            )
     else:
         block_size_limit /= itemsize
 
